@@ -164,7 +164,10 @@ pub fn load_defs(path: &str) -> Defs {
     Defs { recs, cmds }
 }
 pub fn argv_with_bin(d: &Value, argv: &Value) -> Vec<Vec<u8>> {
-    let mut v = vec![bytes_of(&d["cmd"]["name"])];
+    // argv[0] is the command's name, unless the definition itself interprets the first word (multicall) or none (no_binary_name)
+    let s = &d["cmd"]["s"];
+    let raw = s["multicall"].as_bool().unwrap_or(false) || s["no_binary_name"].as_bool().unwrap_or(false);
+    let mut v = if raw { vec![] } else { vec![bytes_of(&d["cmd"]["name"])] };
     for a in argv.as_array().unwrap() {
         v.push(bytes_of(a));
     }
